@@ -318,7 +318,7 @@ def space_list(api, gname, g, thorough):
 
     def add(lab, kind, deg, pou, **kw):
         sp = api.function_space(g, kind, deg, scatter=False, **kw)
-        if sp.global_dof_count > 0 and not sp.requires_dof_transformation:
+        if sp.global_dof_count > 0 and not sp.requires_dof_transformation and len(sp.support_elements) > 0:
             out.append((f"{gname}:{lab}", f"{kind}{deg}".lower(), sp, RefSpace(sp).partition_of_unity()))
 
     for kind, deg in (("DP", 0), ("DP", 1), ("P", 1), ("RWG", 0), ("SNC", 0)):
@@ -373,6 +373,20 @@ class Runner:
         p = self.DP()
         p.quadrature.regular = order
         return p
+
+    def interior_orders(self, lo, hi):
+        """Orders whose rule has all points inside the closed reference triangle.  The rules of order 11, 15, 16, 18
+        and 20 have points OUTSIDE the element (barycentric coordinate down to -0.069): a callable that is defined
+        piecewise (element by element) is then sampled on the wrong element / off the surface, so exactness of the
+        projection can only be demanded for globally polynomial callables at those orders (see check_analytic)."""
+        if not hasattr(self, "_interior"):
+            self._interior = []
+            for o in range(1, 21):
+                uv = np.asarray(self.rule(o)[0], float)
+                if min(uv.min(), (1 - uv[0] - uv[1]).min()) >= 0:
+                    self._interior.append(o)
+            self.res.stats["orders_with_points_outside_the_element"] = [o for o in range(1, 21) if o not in self._interior]
+        return [o for o in self._interior if lo <= o <= hi and o != 4]
 
     def note(self, key, v):
         self.worst[key] = max(self.worst.get(key, 0.0), float(v))
@@ -781,9 +795,10 @@ def _run(ctx, api, res, deep):
             plan = [(e, f, c) for e, f, c in plan if f in focus] or plan
         for e, f, cplx in plan:
             hi = 8 if f in ("nojit", "vectorized", "vectorized-parameterized") else 20
-            R.check_projection(e, f, cplx, rng.choice([o for o in range(2, hi + 1) if o != 4]))
+            R.check_projection(e, f, cplx, rng.choice(R.interior_orders(2, hi)))
         if thorough or gi == 0:
-            R.check_analytic([e for e in entries if thorough or tt(e) == xt], rng.choice([2, 3, 5, 6, 9]))
+            # globally polynomial callables: every order >= 2, including the rules with points outside the element
+            R.check_analytic([e for e in entries if thorough or tt(e) == xt], rng.choice([2, 3, 5, 6, 9, 11, 15, 18, 20]))
         ctx.log(f"{gname}: projections ({len(plan)} callables): {time.time() - t0:.1f}s")
     res.stats["worst"] = {k: float(f"{v:.3e}") for k, v in sorted(R.worst.items())}
     res.stats["tolerances"] = dict(entries=TOL, coefficients_after_solve=TOL_SOLVE)
